@@ -1,12 +1,13 @@
 import H2V.Model.CodecRead
 import H2V.Model.CodecWrite
 import H2V.Spec.Frame
+import H2V.Lemmas.Codec
 /-
   C12 — frame codec: parse(serialize(f)) = f under any I/O chunking, within size limits.
-  Property theorems only.
+  Property theorems only (lemmas: `H2V/Lemmas/Codec*.lean`).
 -/
 namespace H2V.Props.C12
-open H2V H2V.Model.Frame
+open H2V H2V.Model.Frame H2V.Model.CodecRead H2V.Model.CodecWrite H2V.Lemmas.Codec
 
 /-- the 9-octet frame header written by `Head::encode` is read back by `Head::parse` (and by the
     RFC 9113 §4.1 layout: 24-bit length, type, flags, reserved bit + 31-bit stream identifier) -/
@@ -19,5 +20,77 @@ theorem head_roundtrip (h : Head) (len : Nat) (hk : h.kind < 256) (hf : h.flag <
     Spec.Frame.u32, List.cons_append, List.nil_append, List.getD_cons_succ, List.getD_cons_zero, List.drop_succ_cons,
     List.drop_zero, Head.mk.injEq] at *
   refine ⟨⟨trivial, trivial, ?_⟩, ?_, ?_, ?_⟩ <;> omega
+
+/-- **serialise → independent RFC 9113 parser**: every DATA frame h2 emits parses back to the same
+    frame (all stream ids, END_STREAM, payloads of every length below 2^24) -/
+theorem parse_serialize_data (sid : Nat) (payload : Bytes) (eos : Bool) (pad : Option Nat)
+    (hs0 : sid ≠ 0) (hs : sid < 2 ^ 31) (hp : payload.length < 2 ^ 24) :
+    ∃ bytes, encodeSimple (.data sid payload eos pad) = some bytes ∧
+      Spec.Frame.parse bytes = some (.ok (.data sid eos none payload)) :=
+  parse_encode_data sid payload eos pad hs0 hs hp
+
+/-- … and the same for PING (all payloads, ack or not) -/
+theorem parse_serialize_ping (ack : Bool) (p : Bytes) (hp : p.length = 8) :
+    ∃ bytes, encodeSimple (.ping ack p) = some bytes ∧ Spec.Frame.parse bytes = some (.ok (.ping ack p)) :=
+  parse_encode_ping ack p hp
+
+/-- **header blocks**: HEADERS / PUSH_PROMISE followed by the CONTINUATION chain, as h2 splits them
+    under the peer's max frame size, parse (with the independent parser) into one head frame plus
+    CONTINUATION frames on the same stream, END_HEADERS only on the last, whose fragments
+    concatenate to the HPACK block, and NO frame payload exceeds the limit. -/
+theorem parse_serialize_header_block (fuel maxFrame kind flags sid : Nat) (pre hpack : Bytes) (F maxSize : Nat)
+    (hpre : pre.length < maxFrame) (hmax : maxFrame < 2 ^ 24) (hs0 : sid ≠ 0) (hs : sid < 2 ^ 31)
+    (hfuel : hpack.length < fuel) (hF : fuel < F) (hms : maxFrame ≤ maxSize) :
+    ∃ frag0 frags, frag0 ++ frags.flatten = hpack ∧ pre.length + frag0.length ≤ maxFrame ∧
+      (∀ f ∈ frags, f.length ≤ maxFrame) ∧
+      Spec.Frame.frames F maxSize (splitBlock fuel maxFrame kind flags sid pre hpack) =
+        (Spec.Frame.ofParts kind (if frags.isEmpty then flags else flags - 4) sid (pre ++ frag0)
+          :: (contFrames sid frags).map .ok, []) :=
+  parse_split_block fuel maxFrame kind flags sid pre hpack F maxSize hpre hmax hs0 hs hfuel hF hms
+
+/-- **wire → same value however the transport splits reads**: for EVERY reader state and EVERY
+    list of chunks, the frames/errors delivered and the death of the stream depend only on the
+    concatenation of the chunks (one octet at a time included). -/
+theorem reader_chunk_invariance (r : Reader) (chunks : List Bytes) (hq : chunks = [] → Quiescent r) :
+    (feedAll r chunks).2 = (feedAll r [chunks.flatten]).2 :=
+  feed_chunks r chunks hq
+
+/-- what the real decoder delivers for frames of the fixed-shape types is what the RFC parser says -/
+theorem decode_agrees_with_rfc (r r' : Reader) (bytes : Bytes) (f : Model.Frame.Frame)
+    (hlen : 9 ≤ bytes.length) (hcut : bytes.length = 9 + rd24 bytes)
+    (hk : (Head.parse bytes).kind ∈ [0, 2, 3, 4, 6, 7, 8])
+    (h : decodeFrame r bytes = (r', .frame f))
+    (hx : ¬ ((Head.parse bytes).kind = 3 ∧ (Head.parse bytes).sid = 0)) :
+    ∃ f', Corr f f' ∧ Spec.Frame.parse bytes = some (.ok f') :=
+  decodeFrame_sound_parse r r' bytes f hlen hcut hk h hx
+
+/-- **partial writes never duplicate, drop or reorder bytes**: over ANY sequence of `buffer` and
+    `flush` calls, with ANY script of `poll_write` answers (short writes, Pending, zero), the octets
+    accepted by the transport followed by what is still pending equal what was pending before
+    followed by the serialisations of the buffered frames, in order. -/
+theorem writer_bytes_exact (ops : List Lemmas.Codec.Op) (w : Writer) (hwf : WF w)
+    (hct : 0 < w.chainThreshold) (hmf : 4 < w.maxFrame) :
+    (run w ops).2.1 ++ pendingBytes (run w ops).1 = pendingBytes w ++ (run w ops).2.2 :=
+  Lemmas.Codec.writer_bytes_exact ops w hwf hct hmf
+
+/-- **no emitted DATA payload exceeds the peer's max frame size**: a larger one is refused -/
+theorem tx_within_max_frame_size (w w' : Writer) (sid : Nat) (payload : Bytes) (eos : Bool) (pad : Option Nat)
+    (h : w.buffer (.simple (.data sid payload eos pad)) = (w', .ok)) : payload.length ≤ w.maxFrame :=
+  tx_data_within_max_frame_size w w' sid payload eos pad h
+
+/-- **a frame larger than the locally advertised limit is rejected with FRAME_SIZE_ERROR before its
+    payload is buffered**: as soon as the three length octets are there, whatever the chunking -/
+theorem rx_oversize_rejected (r : Reader) (hb : AtBoundary r) (chunks : List Bytes)
+    (h3 : 3 ≤ chunks.flatten.length) (hbig : rd24 chunks.flatten > r.maxFrameLen) :
+    (feedAll r chunks).2 = ([.err (.goAway FRAME_SIZE_ERROR "")], true) :=
+  Lemmas.Codec.rx_oversize_rejected r hb chunks h3 hbig
+
+/-- **serialised frames cut into arbitrary chunks are delivered as exactly those frames** -/
+theorem wire_roundtrip_any_chunking (maxLen : Nat) (l : List (Bytes × Model.Frame.Frame))
+    (hl : ∀ x ∈ l, FrameBytes maxLen x.1 x.2)
+    (r : Reader) (hb : AtBoundary r) (hpb : r.partialBlk = none) (hm : r.maxFrameLen = maxLen)
+    (c : Bytes) (cs : List Bytes) (hc : (c :: cs).flatten = (l.map (·.1)).flatten) :
+    feedAll r (c :: cs) = (r, l.map (fun x => Item.frame x.2), false) :=
+  feed_wire_chunks maxLen l hl r hb hpb hm c cs hc
 
 end H2V.Props.C12
